@@ -24,6 +24,24 @@ CLAIMED = {
          "process-pool behaviour (smoke run only)."),
    technique="Coq proof by invariant induction over schedules + trace correspondence (vm_compute) against the real _generic_pmap",
    design_ref="3/C14"),
+ "C03": dict(
+   text=("Machine-checked proof (Coq 8.16 + MathComp) that every flag site of the source "
+         "(one theorem per Qobj(...) construction / in-place update in qobj.py, tensor.py, "
+         "superoperator.py, solver_base.py) attaches isherm/isunitary values that are sound "
+         "for the data it attaches them to, for all dimensions, all operand matrices over any "
+         "field with involution, and all tri-state cache states; an induction over every finite "
+         "history of operations and cache reads (C03_all_histories); and the consumer lemmas "
+         "(trace/diag real, dag shortcut).  The flag expressions are regenerated from the "
+         "current source by an ast translator on every run, validated against the flags real "
+         "operations attach, and an oracle compares every definite cached answer with "
+         "recomputation over ~10^4 operation/operand/cache-state/history combinations."),
+   note=("Trusted: Coq kernel, MathComp 1.15, translator tx_c03_flags.py (fails closed), "
+         "Section hypotheses on expm / solver evolution / unitary similarity, exact versions "
+         "of the tolerance predicates.  Oracle-only (no theorem): trunc_neg, literal flags in "
+         "superop_reps.py, QobjEvo.__call__ (Cython), tidyup, Qobj.data setter, transform "
+         "with a non-unitary matrix.  Seven genuine defects were found and fixed (known_findings.json)."),
+   technique="Coq/MathComp proof per generated flag term + induction over histories; ast translator regenerated each run; run-time flag correspondence; recomputation oracle",
+   design_ref="3/C03"),
 }
 
 NOT_YET = {}
